@@ -30,17 +30,28 @@ import (
 )
 
 const (
-	nA = 8
+	nA = 24
 	nB = 8
 )
 
-var sizesA = [nA]int{0, 1, 100, 4096, 32768, 32769, 100 << 10, 7}
+// first creations of an output are where concurrent writers meet half-written files: many ids, several chunks
+var sizesA = [nA]int{0, 1, 100, 4096, 32768, 32769, 100 << 10, 7, 300 << 10, 1 << 20, 65537, 98304,
+	40000, 70000, 200 << 10, 33000, 512 << 10, 66000, 131072, 99999, 160 << 10, 45000, 250000, 36000}
 var sizesB = []int{64, 1000, 32769, 200 << 10}
 
 func idA(k int) cache.ActionID { return cache.ActionID(sha256.Sum256([]byte(fmt.Sprintf("A-%d", k)))) }
 func idB(k int) cache.ActionID { return cache.ActionID(sha256.Sum256([]byte(fmt.Sprintf("B-%d", k)))) }
 
-func contentA(k int) []byte { return payload.Make(fmt.Sprintf("A%d", k), int64(k), sizesA[k]) }
+var (
+	contentAOnce [nA]sync.Once
+	contentAVal  [nA][]byte
+)
+
+// contentA is the (fixed) content of identical-content id k; computed once per process.
+func contentA(k int) []byte {
+	contentAOnce[k].Do(func() { contentAVal[k] = payload.Make(fmt.Sprintf("A%d", k), int64(k), sizesA[k]) })
+	return contentAVal[k]
+}
 func contentB(k int, version int64) []byte {
 	return payload.Make(fmt.Sprintf("B%d", k), version, sizesB[int(version)%len(sizesB)])
 }
@@ -60,6 +71,23 @@ func validB(k int, data []byte) string {
 		return "payload body differs from what version " + parts[1] + " stored (mixed / torn content)"
 	}
 	return ""
+}
+
+// slowSource delays between the chunks that Put reads.
+type slowSource struct {
+	*bytes.Reader
+	x uint64
+}
+
+func (s *slowSource) Read(p []byte) (int, error) {
+	s.x = s.x*6364136223846793005 + 1442695040888963407
+	switch (s.x >> 33) % 4 {
+	case 0:
+		time.Sleep(time.Duration((s.x>>40)%400) * time.Microsecond)
+	case 1:
+		runtime.Gosched()
+	}
+	return s.Reader.Read(p)
 }
 
 type event struct {
@@ -152,10 +180,15 @@ func worker() {
 					}
 					t0 := vlib.MonoNow()
 					var err error
-					if rng.Intn(2) == 0 {
+					switch rng.Intn(4) {
+					case 0:
 						err = c.PutBytes(id, data)
-					} else {
+					case 1:
 						_, _, err = c.Put(id, bytes.NewReader(data))
+					default:
+						// a slow source (the reader is the caller's): the copy into the cache takes a while,
+						// so that other writers and readers meet the half-written output
+						_, _, err = c.Put(id, &slowSource{Reader: bytes.NewReader(data), x: uint64(rng.Int63())})
 					}
 					t1 := vlib.MonoNow()
 					evs = append(evs, event{k, true, t0, t1})
@@ -260,10 +293,10 @@ func main() {
 		return
 	}
 	vlib.Main("C11", "exploration", 10*time.Minute, func(r *vlib.Run) {
-		r.Rule("rounds; each round = fresh cache directory shared by P processes (3-8) x G goroutines (4-8) released together, each doing N operations on 8 identical-content ids (sizes 0..100KiB) and 8 differing-content ids (64B..200KiB): 50% Put/PutBytes, 50% GetBytes/GetFile, with seeded delays at the cache.* hook points. Evaluations = operations executed; distinct non-trivial = lookups that overlapped in time with a Put of the same id in another goroutine or process (counted from the merged op log), plus rounds.")
+		r.Rule("rounds; each round = fresh cache directory shared by P processes (3-8) x G goroutines (4-8) released together, each doing N operations on 24 identical-content ids (sizes 0..1MiB, half of the Puts from a slow source) and 8 differing-content ids (64B..200KiB): 50% Put/PutBytes, 50% GetBytes/GetFile, with seeded delays at the cache.* hook points. Evaluations = operations executed; distinct non-trivial = lookups that overlapped in time with a Put of the same id in another goroutine or process (counted from the merged op log), plus rounds.")
 		r.Assume("Trim is not part of this workload; flag 'Put completed' is set after Put returned and sampled before the lookup is invoked (client boundary)")
 		base := vlib.Scratch()
-		rounds := r.Pick(10, 150)
+		rounds := r.Pick(12, 200)
 		rng := r.Rand("rounds")
 		hook := map[string]int64{}
 		var tot workerResult
@@ -279,7 +312,7 @@ func main() {
 			}
 			P := 3 + rng.Intn(6)
 			G := 4 + rng.Intn(5)
-			N := r.Pick(110, 400)
+			N := r.Pick(80, 400)
 			if round%5 == 4 {
 				N *= 4 // a longer steady-state round
 			}
